@@ -23,6 +23,8 @@ pub enum MutKind {
     IterMutRev,
     FmtMut,
     CstrFmtMut,
+    /// `alloc_try_with_mut`: Finalise = closure returns Ok, Drop = closure returns Err, Unwind = closure panics
+    TryWithMut,
 }
 
 #[derive(Clone, Copy, Debug, PartialEq, Eq, Hash)]
@@ -77,6 +79,8 @@ pub struct MutReport {
     pub unexpected: Option<String>,
     pub elem_size: usize,
     pub elem_align: usize,
+    /// `alloc_try_with_mut` only: size of the `Result<T, E>` slot the value is constructed in
+    pub slot_size: usize,
 }
 
 fn snap<A, S: BumpAllocatorSettings>(st: Option<Stats<'_, A, S>>, fallback: Stats<'_, A, S>, tag: &'static str, rep: &mut MutReport) {
@@ -452,6 +456,65 @@ where
     snap(Some(fin), fin, "end", rep);
 }
 
+fn run_try_with<'a, A, S, T: Elem>(scope: &mut BumpScope<'a, A, S>, spec: &MutSpec, rep: &mut MutReport)
+where
+    A: BaseAllocator<S::GuaranteedAllocated> + SlabKind,
+    S: BumpAllocatorSettings + 'static,
+{
+    rep.elem_size = size_of::<T>();
+    rep.elem_align = align_of::<T>();
+    rep.slot_size = size_of::<Result<T, u8>>();
+    let end = spec.end;
+    let try_ = spec.cap == 0;
+    let r = catch_unwind(AssertUnwindSafe(|| {
+        let f = || -> Result<T, u8> {
+            match end {
+                MutEnd::Unwind => std::panic::resume_unwind(Box::new(CallbackPanic)),
+                MutEnd::Drop => Err(7),
+                _ => Ok(T::make(5)),
+            }
+        };
+        let r = if try_ {
+            match scope.try_alloc_try_with_mut(f) {
+                Ok(r) => r,
+                Err(_) => return Err("try_alloc_try_with_mut reported an allocation failure".to_string()),
+            }
+        } else {
+            scope.alloc_try_with_mut(f)
+        };
+        Ok(match r {
+            Ok(b) => Some(b.into_raw()),
+            Err(e) => {
+                if e != 7 {
+                    return Err("the error value of the closure was not handed back".to_string());
+                }
+                None
+            }
+        })
+    }));
+    match r {
+        Ok(Ok(Some(ptr))) => {
+            rep.len = 1;
+            rep.result = Some(Blk { ptr: ptr.cast(), len: size_of::<T>(), align: align_of::<T>() });
+            rep.content_ok = end != MutEnd::Drop && unsafe { ptr.as_ref() }.ok(5);
+        }
+        Ok(Ok(None)) => {
+            if end != MutEnd::Drop {
+                rep.unexpected = Some("alloc_try_with_mut returned Err although the closure returned Ok".into());
+            }
+        }
+        Ok(Err(m)) => rep.unexpected = Some(m),
+        Err(p) => {
+            rep.panicked = true;
+            if !p.is::<CallbackPanic>() {
+                rep.unexpected = Some(crate::crash::take_last_panic().unwrap_or_else(|| "panic".into()));
+            }
+        }
+    }
+    let fin = scope.stats();
+    snap(Some(fin), fin, "end", rep);
+}
+
 /// compile-time switch: only configurations whose allocator kind selects `Enabled` instantiate the drivers
 pub trait MutCollSwitch {
     fn run<'a, A, S>(scope: &mut BumpScope<'a, A, S>, spec: &MutSpec, rep: &mut MutReport)
@@ -507,5 +570,6 @@ where
         MutKind::IterMut | MutKind::IterMutRev => by_elem!(run_iter),
         MutKind::Str => run_str(scope, spec, rep),
         MutKind::FmtMut | MutKind::CstrFmtMut => run_fmt(scope, spec, rep),
+        MutKind::TryWithMut => by_elem!(run_try_with),
     }
 }
